@@ -29,7 +29,7 @@ def main():
         tier = sys.argv[sys.argv.index("--tier") + 1]
         args = [a for a in args if a != tier]
     skip_suite = "--skip-suite" in sys.argv
-    seed_dir, patch, demo = args[0], args[1], args[2]
+    seed_dir, patch, demo = os.path.abspath(args[0]), args[1], args[2]
     checks = args[3:]
     tag = "%s_%d" % (os.path.basename(patch).replace(".", "_"), os.getpid())
     wt = "/tmp/seedrun_%s" % tag
